@@ -116,6 +116,12 @@ def run(ctx, chk, tier):
     # prerequisite: the threshold setters and rates do not modify caller arrays (a target array may be reused for the materialised object)
     from . import c10
     c10.purity(ctx, chk, only=("Scores.threshold_at_", "Scores.cm", "Scores.auc", "Scores.tpr", "Scores.fnr", "Scores.tnr", "Scores.fpr", "Scores.topr", "Scores.tonr"))
+    # a declared easy count never makes a setter refuse a target (R02.6)
+    from . import c02s
+    c02s.refusals(ctx, chk)
+    # the easy counts enter cm() as declared numbers: decision-rule cells in a buffer wide enough for them (R01.1)
+    from . import c01
+    c01.cm_cells_rule(ctx, chk)
     # R09.3: AUC with easy samples = AUC of the materialised object (C07 rules incl. easy-count representatives)
     from . import c07
     c07.structural(ctx, chk)
